@@ -184,6 +184,99 @@ theorem C03_subcat_links (db : Db) (entry : Nat) (lexids : List Nat) (s : Sense)
     refine ⟨e, he, ?_⟩
     simp [hi, hne']
 
+/-! ### entries, lemmas and forms survive add → export (end to end) -/
+
+/-- what an exported entry says about its word forms: id, lemma (written form, part of speech, script)
+and the further forms (written form, id, script); absent script / id and the empty string are the
+same thing for the exporter (`x or ''`) -/
+def entryObs (e : Entry) : String × Option (String × String × String) × List (String × String × String) :=
+  (e.id, e.lemma.map (fun l => (l.form, l.pos, l.script.getD "")),
+   e.forms.map (fun f => (f.form, f.id.getD "", f.script.getD "")))
+
+/-- the same for an entry of the added document (external forms are not part of the lexicon) -/
+def docEntryObs (e : Entry) : String × Option (String × String × String) × List (String × String × String) :=
+  (e.id, e.lemma.map (fun l => (l.form, l.pos, l.script.getD "")),
+   (e.forms.filter (fun f => !f.external)).map (fun f => (f.form, f.id.getD "", f.script.getD "")))
+
+def rho (o : String × String × List (String × Option String × Option String)) :
+    String × Option (String × String × String) × List (String × String × String) :=
+  (o.1, o.2.2.head?.map (fun f => (f.1, o.2.1, f.2.2.getD "")), (o.2.2.drop 1).map (fun f => (f.1, f.2.1.getD "", f.2.2.getD "")))
+
+/-- **C03, entries slice, end to end**: add a plain lexicon, export it (any LMF version): the exported
+entries are the document's entries, in order, with the same ids, lemmas (written form, part of
+speech, script) and further forms (written form, id, script) -/
+theorem C03_entries_round_trip (norm : String → String) (dr : Nat) (db db' : Db) (l : Lexicon) (v11 : Bool)
+    (h : addLexicon norm dr db l = .ok db') (hext : l.ext = none) (hx : ∀ e ∈ l.entries, e.external = false)
+    (hfkE : ∀ o ∈ db.entries, o.lex ∈ db.lexicons.map (·.rowid))
+    (hfkF : ∀ f ∈ db.forms, f.entry ∈ db.entries.map (·.rowid)) :
+    (exportEntries db' [nextId (db.lexicons.map (·.rowid))] v11).map entryObs = l.entries.map docEntryObs := by
+  have hw := C01.C01_words_end_to_end norm dr db db' l h hext hx hfkE hfkF
+  have hlem : ∀ e ∈ l.entries, e.lemma.isSome = true := by
+    obtain ⟨c, rows, chunks, _, _, _, hR, _, _⟩ := C01.addLexicon_words_tables norm dr db db' l h hext hx
+    intro e he
+    obtain ⟨i, hi, rfl⟩ := List.mem_iff_getElem.mp he
+    obtain ⟨_, _, _, lem, hl, _⟩ := hR.spec i hi (by rw [hR.len]; exact hi)
+    rw [hl]; rfl
+  unfold exportEntries
+  rw [List.map_map]
+  have e1 : ∀ w : WordData, (entryObs ∘ fun w : WordData =>
+      ({ id := w.id,
+         lemma := some (match w.forms.head? with
+           | some f => { form := f.form, pos := w.pos, script := some (f.script.getD ""), tags := exportTags db' f.rowid,
+                         prons := if v11 then exportProns db' f.rowid else [] }
+           | none => {}),
+         forms := (w.forms.drop 1).map (fun f =>
+           { id := some (f.id.getD ""), form := f.form, script := some (f.script.getD ""), tags := exportTags db' f.rowid,
+             prons := if v11 then exportProns db' f.rowid else [] }),
+         senses := exportSenses db' w.rowid [nextId (db.lexicons.map (·.rowid))] v11,
+         md := mdOrEmpty ((db'.entries.find? (fun e => e.rowid == w.rowid)).bind (·.md)),
+         frames := if v11 then [] else exportFrames10 db' [nextId (db.lexicons.map (·.rowid))] (exportSenses db' w.rowid [nextId (db.lexicons.map (·.rowid))] v11) } : Entry)) w =
+      if w.forms = [] then (w.id, some ("", "", ""), []) else rho (C01.obsWord w) := by
+    intro w
+    cases hf : w.forms with
+    | nil => simp [entryObs, hf]
+    | cons f t => simp [entryObs, rho, C01.obsWord, hf, List.map_map, Function.comp]
+  have hne : ∀ w ∈ findEntries db' none [] none [nextId (db.lexicons.map (·.rowid))] false true, w.forms ≠ [] := by
+    intro w hw'
+    unfold findEntries at hw'
+    simp only [List.mem_filterMap] at hw'
+    obtain ⟨e, _, hx'⟩ := hw'
+    split at hx'
+    · simp at hx'
+    · rename_i hn
+      simp at hx'; subst hx'
+      intro hemp
+      apply hn
+      simp only [List.map_eq_nil_iff] at hemp
+      simp [hemp]
+  have step1 : List.map (entryObs ∘ fun w : WordData =>
+      ({ id := w.id,
+         lemma := some (match w.forms.head? with
+           | some f => { form := f.form, pos := w.pos, script := some (f.script.getD ""), tags := exportTags db' f.rowid,
+                         prons := if v11 then exportProns db' f.rowid else [] }
+           | none => {}),
+         forms := (w.forms.drop 1).map (fun f =>
+           { id := some (f.id.getD ""), form := f.form, script := some (f.script.getD ""), tags := exportTags db' f.rowid,
+             prons := if v11 then exportProns db' f.rowid else [] }),
+         senses := exportSenses db' w.rowid [nextId (db.lexicons.map (·.rowid))] v11,
+         md := mdOrEmpty ((db'.entries.find? (fun e => e.rowid == w.rowid)).bind (·.md)),
+         frames := if v11 then [] else exportFrames10 db' [nextId (db.lexicons.map (·.rowid))] (exportSenses db' w.rowid [nextId (db.lexicons.map (·.rowid))] v11) } : Entry))
+      (findEntries db' none [] none [nextId (db.lexicons.map (·.rowid))] false true) =
+      (findEntries db' none [] none [nextId (db.lexicons.map (·.rowid))] false true).map (rho ∘ C01.obsWord) := by
+    apply List.map_congr_left
+    intro w hw'
+    rw [e1 w]
+    simp [hne w hw']
+  refine Eq.trans ?_ (Eq.trans (congrArg (List.map rho) hw) ?_)
+  · rw [List.map_map]; exact step1
+  · rw [List.map_map]
+    apply List.map_congr_left
+    intro e he
+    have := hlem e he
+    cases hl : e.lemma with
+    | none => rw [hl] at this; cases this
+    | some lem => simp [rho, C01.docWord, docEntryObs, hl, List.map_map, Function.comp]
+
 /-- known finding F2-residual, stated on the model: when the frames linked to a sense carry no id
 (entry-level frames of a 1.0 document), the ≥ 1.1 export has an empty `subcat` although the store
 holds the links -/
